@@ -77,7 +77,20 @@ def _random_cases(rng):
             yield {"t": "mat", "vals": vals, "srcs": [bval.src(v, safe=False) for v in vals]}
 
 
+def _empties_cases():
+    """Equal values whose empty lists were built in different ways (different inferred element types),
+    inside tuples / lists / options / dicts, against each other and against a near miss."""
+    from . import c32
+    for wname, wabs, wsrc in c32.WRAPS:
+        k = wsrc.count("%s")
+        srcs = [wsrc % ((e,) * k) for e in c32.EMPTIES] + [wsrc % (("[7]",) * k)]
+        vals = [wabs(c32.EMPTY) for _ in c32.EMPTIES] + [wabs(["list", [["int", 7]]])]
+        yield {"t": "mat", "vals": vals, "srcs": srcs, "alt": True}
+
+
 def gen_cases(tier, seed):
+    for c in _empties_cases():
+        yield c
     rng = random.Random(seed * 1000003 + 13)
     rnd = _random_cases(rng)
     n = len(pool())
